@@ -5,7 +5,7 @@ export GOFLAGS=-mod=mod GOPROXY=off GOSUMDB=off GOTOOLCHAIN=local; unset GOWORK
 (cd lcv && go build -o ../bin/lcverif ./cmd/lcverif) || exit 2
 IDS="C01 C02 C03 C04 C05 C06 C08 C09 C10 C11 C12 C13 C14 C15 C16 C17 C18 C19 C20"
 export MUTW=700
-ls benign/*/patch.diff | xargs -P 14 -I{} sh -c "tools/mutant.sh {} $IDS 2>&1" > benign/RESULT.raw
+ls benign/*/patch.diff | xargs -P 14 -I{} sh -c "LCV_NOBUILD=1 tools/mutant.sh {} $IDS 2>&1" > benign/RESULT.raw
 echo "false alarms (a check reporting a violation on a behaviour-preserving change):"
 grep -E "^(DETECTED|ERROR|SKIP)" benign/RESULT.raw || echo "  none"
 echo "silent: $(grep -c '^MISSED' benign/RESULT.raw) check runs"
